@@ -9,6 +9,28 @@ HERE = os.path.dirname(os.path.dirname(os.path.abspath(__file__)))
 sys.path.insert(0, HERE)
 
 NOT_APPLICABLE: dict[str, str] = {}
+TECHNIQUES = {
+    "C01": "static analysis: CFG dominance / must-guard rules, origin tracing (def-use) of operator and operand wiring, abstract interpretation of one loop iteration under role assignments, who-may-call scan",
+    "C02": "static analysis: array-taint dataflow over the call graph of Engine.process (sources/sinks/sanitisers), in-place-write and coercion rules, ownership (who-may-write) scan",
+    "C03": "static analysis: abstract interpretation of the membership kernels over an order-type domain with rational-function normal forms (real arithmetic) and an extended-sign domain; def-use rules",
+    "C04": "static analysis: abstract interpretation of the norm kernels per order type of the operands, canonical (normal-form) comparison with the documented formulas and laws",
+    "C05": "static analysis: abstract interpretation of the hedge kernels per order type, canonical (normal-form) comparison with the documented formulas and laws",
+    "C06": "static analysis: operator-table extraction, guard truth tables over weak orders, parser automaton extraction with product comparison, pushdown abstract interpretation of infix_to_postfix, origin tracing",
+    "C07": "static analysis: loop-carried reaching definitions, abstract interpretation of one iteration, in-place-interface and who-may-call scans, automaton extraction of Consequent.load",
+    "C08": "static analysis: exhaustive guard truth tables over weak orders of the compared quantities (abstract interpretation of one iteration), CFG order rules, table extraction",
+    "C09": "static analysis: sibling normal forms of the five integral defuzzifiers, reducer-kind and axis rules, formula normal form of Op.midpoints",
+    "C10": "static analysis: sibling comparison, path-sensitive decision table of infer_type, extended-sign abstract interpretation of zero-weight contributions, ownership rules",
+    "C11": "static analysis: composition membership(tsukamoto(y)) normalised per order type (rational-function normal forms, factored signs); class-table and def-use rules",
+    "C12": "static analysis: CFG must-precede / must-guard rules on OutputVariable.defuzzify, abstract interpretation of the fill loop and the setter under guard assignments, who-may-write scan",
+    "C13": "static analysis: effect (read/write-set) analysis over the call graph, write-before-read of step state, ownership / aliasing rules, copy-hook and shared-mutable scans",
+    "C14": "static analysis: extraction and entry-by-entry comparison of exporter and importer tables (keys, attributes, value kinds, parameter order, elision vs defaults, registration, field coverage)",
+    "C15": "static analysis: constructor-parameter vs emitted-field tables, guard-vs-default rules, alias discipline, __all__ coverage, truthiness scan, Engine.__init__ reference rule",
+    "C16": "static analysis: parser automaton extraction by abstract interpretation and product comparison with the grammar automata; pushdown abstract interpretation of the formula parsers; exception-class enumeration over the call graph; dominance rules for pops/subscripts; load atomicity",
+    "C17": "static analysis: registry table extraction vs the specification ladder and numpy name map; pushdown abstract interpretation of infix_to_postfix / parse against reference transducers; truth tables of the pop rule",
+    "C18": "static analysis: taint rule (fractional power -> truncation) on the grid size, abstract interpretation of Op.increment and of the row loop under role assignments, origin tracing of the write plumbing",
+    "C19": "static analysis: abstract interpretation of Engine.is_ready under all (needed, present) assignments, control-dependence of report sites, dereference guards on the processing path, tokeniser agreement",
+    "C20": "static analysis: abstract interpretation of the Settings.context generator over symbolic attribute values for all subsets of settings and exit kinds; CFG path rules; table and who-may-read/write scans",
+}
 ALL = [f"C{i:02d}" for i in range(1, 21)]
 
 
@@ -41,7 +63,7 @@ def main() -> None:
             },
             "level_note": "Trusted: CPython's ast parser, the analyser under /verif/sa, the specification tables of "
                           "DESIGN.md Appendix A. Assumed: " + "; ".join(getattr(mod, "ASSUMPTIONS", []) or ["nothing further"]),
-            "technique": getattr(mod, "TECHNIQUE", "static analysis: custom AST/CFG/dataflow rules"),
+            "technique": getattr(mod, "TECHNIQUE", None) or TECHNIQUES.get(pid, "static analysis: custom AST/CFG/dataflow rules"),
         })
     manifest = {
         "version": 1,
@@ -59,7 +81,9 @@ def main() -> None:
             "serves_properties": [c["property_id"] for c in checks],
             "kind_free_text": "repository-specific static analyser: program model (classes, MRO, properties), per-function "
                               "CFG with dominance / control dependence / reaching definitions, origin tracing, "
-                              "exhaustive guard truth tables over weak orders, abstract interpretation of numpy kernels, "
+                              "exhaustive guard truth tables over weak orders, abstract interpretation of numpy kernels "
+                              "(extended-sign and order-type domains, rational-function normal forms), abstract interpretation of the "
+                              "token-driven pushdown parsers and of the settings context manager (sa/absexec.py), "
                               "table extraction and sibling cross-checks, parser automaton extraction",
         }],
         "checks": checks,
